@@ -29,8 +29,8 @@ from lib.core import *
 from lib import gen_ls as g
 from fractions import Fraction as F
 
-PROPS_FILES = ["Gama/Props/C04Full.lean"]
-LEAN_TARGETS = ["Gama.Props.C04Full"]
+PROPS_FILES = ["Gama/Props/C04Full.lean", "Gama/Props/C04Pending.lean", "Gama/Props/C04Net.lean"]
+LEAN_TARGETS = ["Gama.Props.C04Full", "Gama.Props.C04Pending", "Gama.Props.C04Net"]
 DRIVERS = ["drv_fullstate", "drv_netstate"]
 SRC = ["lib/gnu_gama/adj/adj.cpp", "lib/gnu_gama/adj/icgs.cpp", "lib/gnu_gama/adj/adj_input_data.cpp"]
 CONFIG_OPS = ("min_x", "min_x_all", "reset", "set_alg")      # "reset" also matches reset_new
@@ -501,6 +501,11 @@ def run_stream(ctx, corr, exe, drv, gens, stream, site):
         if stream.startswith("fullstate"):
             corr.count("full_info_agreement_checks", sum(1 for x in b if x.startswith("info ")))
             corr.count("full_info_refused", sum(1 for x in b if x.startswith("info-does-not-describe")))
+        elif stream.startswith("adjstate"):
+            # round 9: the adj entry too — `info chol|gso|svd` lines are echoed only if `FInfo.agrees` with `Full.inputOf alg q`,
+            # `q` the homogenised problem the solver inside `Adj` is given (`adj_driver_input_is_instance`)
+            corr.count("adj_info_agreement_checks", sum(1 for x in b if x.startswith("info ") and not x.startswith("info env")))
+            corr.count("adj_info_refused", sum(1 for x in b if x.startswith("info-does-not-describe")))
         corr.count(stream + "_state_lines", sum(1 for x in b if x.startswith(("st ", "adj "))))
         corr.count(stream + "_numeric_lines", sum(1 for x in b if x.startswith(("vec", "val", "int", "flag"))))
         if bad is not None:
@@ -936,6 +941,13 @@ def run_net_cascade(ctx, corr, n=None, maxlen=None):
                     lo = max(0, k - 4)
                     corr.disagree("netstate", c, [f"{c[j]} -> {a[j]}" for j in range(lo, k + 1)],
                                   [f"{c[j]} -> {b[j]}" for j in range(lo, k + 1)], f"flags differ after op #{k - 1} '{c[k - 1]}'")
+            elif w == "set_algorithm":
+                # round 9: `ok <class>` — model: class `Gen.setAlg` (regenerated) selects for the name; implementation: dynamic
+                # type of the new `least_squares` through the probe
+                corr.count("net_set_algorithm_class_lines")
+                if a[k] != b[k]:
+                    corr.disagree("netstate", c, [f"{c[k]} -> {a[k]}"], [f"{c[k]} -> {b[k]}"],
+                                  f"set_algorithm: solver class differs at op #{k}")
             elif l == "inner_constraints" and a[k].startswith("vec ") and not outside:
                 # independent reference (no fresh object involved): the corrections of the constrained points of a free
                 # network are orthogonal to the translations and to the rotation restricted to these points
